@@ -300,7 +300,8 @@ def run(ctx):
                         ctl=o['ctl'][:24], names=o['names'][:12],
                         control_units=[(u['c'], u['r'], u['s'], u['no']) for u in o['units'] if 'Control' in u['c']][:8]))
     ctx.cov['rule'] = ('every request TLC generates within the slices %s (full product annotation x rates entry x default '
-                       'shape for 1 parameter, reduced products for 2-3 parameters, prepend 0-2, wrap trees of up to '
+                       'shape for 1 parameter, reduced products for 2-3 parameters, value-oriented defaults (0, 0.0, False, '
+                       'True, negative, = spec default, zero tuples) x spec present/absent, prepend 0-2, wrap trees of up to '
                        '%d functions, 0-2 variants, spec defaults) plus %d simulated long requests (12-40 parameters); '
                        'every third request with renamed parameters; 3 calls per request; non-trivial = two control '
                        'parameters differing in rate group/width, or wrap/prepend/lag list/variant/spec present'
@@ -333,8 +334,9 @@ MANIFEST = dict(
           'TLC validates decoded bytes, received signals, variant blocks and the /s_new pairs of SynthDef.__call__ '
           '(NRT score) against the layout. Long requests (<=40 parameters, LagControl clumps) come from TLC -simulate.'),
     note=('Decided: build result for every generated request (bounded exhaustively for <=2 parameters over the stated '
-          'alphabets, <=3 with reduced alphabets, sampled beyond). Not decided: defaults outside the 1/8 lattice, NaN/complex/'
-          'bool defaults, NamedControl-style add_name controls, the server-side effect of lag values, positional arguments '
+          'alphabets, <=3 with reduced alphabets, sampled beyond); default values include 0, 0.0, False/True, negatives and the '
+          'spec default itself, with and without a metadata spec (an explicit default always wins). Not decided: defaults '
+          'outside the 1/8 lattice, NaN/complex defaults, NamedControl-style add_name controls, the server-side effect of lag values, positional arguments '
           'beyond the graph function\'s own parameters. Unit order in the file and exact grouping of control units are not '
           'part of the property (the latter is reported as drift).'),
     technique='TLA+ layout spec as generator and oracle (TLC enumeration + simulation) + batch trace validation of real SynthDef builds and NRT calls',
